@@ -292,17 +292,20 @@ def run(tier, seed, only=None):
         if res is None:
             rep.add(Obligation(key="translation/validated", verdict=BROKEN, reason="the native validation binary did not build or run"))
             return rep.finish()
-        tbad = []
+        tbad, timprecise = [], []
         for i, fl in enumerate(vecs):
             flow, al, mv, paths = runs[len(fl)]
             pins = [x == v for n, (a, b) in enumerate(fl) for x, v in ((al[n], a), (mv[n], b))]
             outs = {str(is_err).lower() for Q, is_err in paths if check(Q.pc + pins)[0] == "sat"}
             rep.replayed += 1
-            if outs != {res.get("t.%d" % i)}:
+            if res.get("t.%d" % i) not in outs:
                 tbad.append("%s: real %s, encoding %s" % (fl, res.get("t.%d" % i), sorted(outs)))
+            elif len(outs) > 1:
+                timprecise.append(fl)
         rep.add(Obligation(dict(engine="mirsem vs native", functions=["OwnershipChecker::check_if_dropped", "OwnershipChecker::nth_outer_scope"]), key="translation/validated",
-                           nontrivial=False, verdict=BROKEN if tbad else HELD,
+                           nontrivial=False, verdict=BROKEN if tbad else INCONCLUSIVE if timprecise else HELD,
                            reason=("the encoding disagrees with the real function: " + " | ".join(tbad[:4])) if tbad else
+                           ("the encoding leaves the answer open on %d concrete chains (an unmodelled callee): verdicts above are sound for 'held' only" % len(timprecise)) if timprecise else
                            "the symbolic execution predicts the real function's answer on all %d scope chains of the decided depths (this also validates the nth_outer_scope contract)" % len(vecs)))
         for i, (ob, fl, is_err) in enumerate(to_replay):
             g = res.get("r.%d" % i)
